@@ -2536,6 +2536,11 @@ def _boundary_table():
                     blocks = [(0, L)] if where == "0" else [(len(BG) - L, len(BG))]
                     add("CDSInterval", f"b:cdsedge:{where}:{L}:{f}:{st}",
                         (lambda blocks=blocks, f=f, st=st: _b_cds(blocks, _STR[st], f, "s")), _res("s"))
+    # CDS with a zero-length block first / in the middle / last
+    for pos, blocks in (("first", [(3, 3), (5, 11)]), ("mid", [(5, 8), (9, 9), (11, 14)]), ("last", [(5, 11), (13, 13)])):
+        for f in (0, 1, 2):
+            for st in "pm":
+                add("CDSInterval", f"b:cdsz:{pos}:{f}:{st}", (lambda blocks=blocks, f=f, st=st: _b_cds(blocks, _STR[st], f, "s")), _res("s"))
     # transcripts whose CDS equals / touches the exon ends, one-base and zero-length exons, coordinate 0 / parent end
     for shape, (exons, cds) in TX_SHAPES.items():
         for st in "pm":
@@ -2549,9 +2554,9 @@ def _boundary_table():
             for par in (("s", "n") if shape in ("at0", "zero") else ("s",)):
                 add("FeatureInterval", f"b:feat:{shape}:{st}:{par}",
                     (lambda blocks=blocks, st=st, par=par: _b_feat(blocks, _STR[st], par)),
-                    _res(par, directional=st != "u", nonempty=sum(e - s for s, e in blocks) > 0))
+                    _res(par, directional=st != "u", coding=False, nonempty=sum(e - s for s, e in blocks) > 0))
     for shape, v in VAR_SHAPES.items():
-        add("VariantInterval", f"b:var:{shape}", (lambda v=v: _b_var(v, "s")), _res("s"))
+        add("VariantInterval", f"b:var:{shape}", (lambda v=v: _b_var(v, "s")), _res("s", coding=False))
     # genes with one child, collections with one member
     for shape in ("full", "nc", "onebase5", "onebaseexons", "at0", "atend", "zeroexon"):
         exons, cds = TX_SHAPES[shape]
@@ -2564,11 +2569,11 @@ def _boundary_table():
         blocks = FEAT_SHAPES[shape]
         add("FeatureIntervalCollection", f"b:fc:{shape}",
             (lambda blocks=blocks: FeatureIntervalCollection([_b_feat(blocks, "+", "s")], parent_or_seq_chunk_parent=_bpar("s"))),
-            _res("s", nonempty=sum(e - s for s, e in blocks) > 0))
+            _res("s", coding=False, nonempty=sum(e - s for s, e in blocks) > 0))
     for shape in ("at0", "atend"):
         v = VAR_SHAPES[shape]
         add("VariantIntervalCollection", f"b:vc:{shape}",
-            (lambda v=v: VariantIntervalCollection([_b_var(v, "s")], parent_or_seq_chunk_parent=_bpar("s"))), _res("s"))
+            (lambda v=v: VariantIntervalCollection([_b_var(v, "s")], parent_or_seq_chunk_parent=_bpar("s"))), _res("s", coding=False))
 
     def gene1(par="s", st="+"):
         return GeneInterval([_b_tx(E2, E2, st, 0, par, transcript_id="T1")], gene_type=Biotype.protein_coding, gene_id="G1",
@@ -2578,15 +2583,17 @@ def _boundary_table():
         return FeatureIntervalCollection([_b_feat(FEAT_SHAPES["at0"], "+", par, feature_types=["promoter"])],
                                          parent_or_seq_chunk_parent=_bpar(par))
     AC = {
-        "onegene": lambda: AnnotationCollection(genes=[gene1()], parent_or_seq_chunk_parent=_bpar("s")),
-        "onefc": lambda: AnnotationCollection(feature_collections=[fc1()], parent_or_seq_chunk_parent=_bpar("s")),
+        "onegene": lambda: AnnotationCollection(genes=[gene1()], sequence_name="chr1", parent_or_seq_chunk_parent=_bpar("s")),
+        "onefc": lambda: AnnotationCollection(feature_collections=[fc1()], sequence_name="chr1", parent_or_seq_chunk_parent=_bpar("s")),
         "genevar": lambda: AnnotationCollection(genes=[gene1()], variant_collections=[
-            VariantIntervalCollection([_b_var((4, 5, "G"), "s")], parent_or_seq_chunk_parent=_bpar("s"))], parent_or_seq_chunk_parent=_bpar("s")),
-        "boundseq": lambda: AnnotationCollection(genes=[gene1()], start=4, end=20, parent_or_seq_chunk_parent=_bpar("s")),
-        "boundswhole": lambda: AnnotationCollection(genes=[gene1()], start=0, end=len(BG), parent_or_seq_chunk_parent=_bpar("s")),
-        "boundszero": lambda: AnnotationCollection(start=5, end=5, parent_or_seq_chunk_parent=_bpar("s")),
-        "boundsatend": lambda: AnnotationCollection(start=len(BG), end=len(BG), parent_or_seq_chunk_parent=_bpar("s")),
-        "noparent": lambda: AnnotationCollection(genes=[gene1("n")]),
+            VariantIntervalCollection([_b_var((4, 5, "G"), "s")], parent_or_seq_chunk_parent=_bpar("s"))], sequence_name="chr1",
+            parent_or_seq_chunk_parent=_bpar("s")),
+        "boundseq": lambda: AnnotationCollection(genes=[gene1()], start=4, end=20, sequence_name="chr1", parent_or_seq_chunk_parent=_bpar("s")),
+        "boundswhole": lambda: AnnotationCollection(genes=[gene1()], start=0, end=len(BG), sequence_name="chr1",
+                                                    parent_or_seq_chunk_parent=_bpar("s")),
+        "boundszero": lambda: AnnotationCollection(start=5, end=5, sequence_name="chr1", parent_or_seq_chunk_parent=_bpar("s")),
+        "boundsatend": lambda: AnnotationCollection(start=len(BG), end=len(BG), sequence_name="chr1", parent_or_seq_chunk_parent=_bpar("s")),
+        "noparent": lambda: AnnotationCollection(genes=[gene1("n")], sequence_name="chr1"),
     }
     for shape, fn in AC.items():
         add("AnnotationCollection", f"b:ac:{shape}", fn,
@@ -2598,22 +2605,23 @@ def _boundary_table():
             add("CDSInterval", f"b:ck:cds:{rel}:{st}", (lambda win=win, st=st: _b_cds(CK_CDS, _STR[st], 0, win)), _res(win, inside=ins))
             add("TranscriptInterval", f"b:ck:tx:{rel}:{st}",
                 (lambda win=win, st=st: _b_tx(CK_BLOCKS, CK_CDS, _STR[st], 0, win)), _res(win, inside=ins))
-            add("FeatureInterval", f"b:ck:feat:{rel}:{st}", (lambda win=win, st=st: _b_feat(CK_BLOCKS, _STR[st], win)), _res(win, inside=ins))
+            add("FeatureInterval", f"b:ck:feat:{rel}:{st}", (lambda win=win, st=st: _b_feat(CK_BLOCKS, _STR[st], win)), _res(win, coding=False, inside=ins))
             add("GeneInterval", f"b:ck:gene:{rel}:{st}",
                 (lambda win=win, st=st: GeneInterval([_b_tx(CK_BLOCKS, CK_CDS, _STR[st], 0, win)], gene_type=Biotype.protein_coding,
                                                      parent_or_seq_chunk_parent=_bpar(win))), _res(win, inside=ins))
-        add("VariantInterval", f"b:ck:var:{rel}", (lambda win=win: _b_var((12, 13, "T"), win)), _res(win, inside=win[0] <= 12 < win[1]))
+        add("VariantInterval", f"b:ck:var:{rel}", (lambda win=win: _b_var((12, 13, "T"), win)), _res(win, coding=False, inside=win[0] <= 12 < win[1]))
         add("FeatureIntervalCollection", f"b:ck:fc:{rel}",
             (lambda win=win: FeatureIntervalCollection([_b_feat(CK_BLOCKS, "+", win)], parent_or_seq_chunk_parent=_bpar(win))),
-            _res(win, inside=ins))
+            _res(win, coding=False, inside=ins))
         add("AnnotationCollection", f"b:ck:ac:{rel}",
             (lambda win=win: AnnotationCollection(
                 genes=[GeneInterval([_b_tx(CK_BLOCKS, CK_CDS, "+", 0, win)], gene_type=Biotype.protein_coding,
                                     parent_or_seq_chunk_parent=_bpar(win))],
                 feature_collections=[FeatureIntervalCollection([_b_feat(CK_BLOCKS, "-", win)], parent_or_seq_chunk_parent=_bpar(win))],
-                parent_or_seq_chunk_parent=_bpar(win))), _res(win, inside=ins))
+                sequence_name="chr1", parent_or_seq_chunk_parent=_bpar(win))), _res(win, inside=ins))
         add("AnnotationCollection", f"b:ck:acb:{rel}",
-            (lambda win=win: AnnotationCollection(start=10, end=22, parent_or_seq_chunk_parent=_bpar(win))), _res(win, inside=ins))
+            (lambda win=win: AnnotationCollection(start=10, end=22, sequence_name="chr1", parent_or_seq_chunk_parent=_bpar(win))),
+            _res(win, inside=ins))
     return T
 
 
